@@ -45,6 +45,15 @@ def fix_fields(tree):
     return t
 
 
+def swap_names(text, a, b, quoted=False):
+    """alpha-rename: exchange two identifiers everywhere (whole words; in JSON text: whole quoted strings)"""
+    import re
+    if quoted:
+        pa, pb = '"%s"' % a, '"%s"' % b
+        return text.replace(pa, "\0").replace(pb, pa).replace("\0", pb)
+    return re.sub(r"\b(%s|%s)\b" % (a, b), lambda m: b if m.group(1) == a else a, text)
+
+
 def parse_text(text):
     """-> ("ok", normalized dict) | ("err", repr) | ("raised", msg)"""
     from fcp.parser import get_fcp_from_string
@@ -245,6 +254,19 @@ def run_c07(tier, seed):
         if d:
             chk.violation("parser:tree-differs:%s" % diff_class(d),
                           {"mode": "G", "text": c["text"], "style": c["style"], "at": d[0], "expected": d[1], "observed": d[2]})
+        if ci % 6 == 0 and "Ea" in c["text"] and "Sa" in c["text"]:
+            # the same description with the enum's and the struct's names exchanged, parsed in the same process: what an
+            # identifier was in an earlier parse must not matter
+            st3, got3 = parse_text(swap_names(c["text"], "Ea", "Sa"))
+            exp3 = json.loads(swap_names(json.dumps(exp), "Ea", "Sa", quoted=True))
+            chk.count(1, traces=1)
+            if st3 != "ok":
+                chk.violation("parser:%s-on-well-formed-text:renamed-twin" % st3, {"mode": "G", "text": swap_names(c["text"], "Ea", "Sa"), "observed": got3})
+            else:
+                d3 = first_diff(exp3, got3)
+                if d3:
+                    chk.violation("parser:tree-differs:renamed-twin:%s" % diff_class(d3),
+                                  {"mode": "G", "text": swap_names(c["text"], "Ea", "Sa"), "at": d3[0], "expected": d3[1], "observed": d3[2]})
         if ci % 10 == 0:
             st2, got2 = parse_file(c["text"], chk.workdir)
             chk.count(1, traces=1)
